@@ -28,7 +28,7 @@ theorem side_inv {l l' : L} {id pre ph : Nat} {txids : List Nat} (I : LedgerInv 
     (hC : ∀ t, lookup l'.C t = if t ∈ txids ∧ overw l false t = true then some id else lookup l.C t)
     (hle : ph + 1 ≤ l.trunkHeight)
     (hfresh : ∀ a ha, Anc l a pre → lookup l.B a = some ha → ∀ t, t ∈ txids → t ∉ ha.txs)
-    (hidC : ∀ t, lookup l.C t = some id → t ∈ txids) : LedgerInv l' := by
+    (hidC : ∀ t, lookup l.C t = some id → t ∈ txids) : LedgerInv l' ∧ (CStored l → CStored l') := by
   have T := I.tree
   obtain ⟨th, hts, hth0⟩ := I.tip
   have tipne : l.tip ≠ id := A.ne_of_stored hts
@@ -41,6 +41,7 @@ theorem side_inv {l l' : L} {id pre ph : Nat} {txids : List Nat} (I : LedgerInv 
     intro b hb
     obtain ⟨h, hs⟩ := I.path_stored hb
     exact A.ne_of_stored hs
+  refine ⟨?_, ?_⟩
   refine
     { tree := A.tree T, tip := ⟨th, by rw [htip, hB _ tipne]; exact hts, by rw [hth]; exact hth0⟩, trunk := ?_,
       zh_sound := ?_, zh_complete := ?_, next_path := ?_, next_none := ?_, height_le := ?_,
@@ -133,13 +134,22 @@ theorem side_inv {l l' : L} {id pre ph : Nat} {txids : List Nat} (I : LedgerInv 
     · rintro ⟨_, h2⟩
       rw [overw_false_of_stored hc hb] at h2
       cases h2
+  · -- CStored
+    intro CS t c hc
+    rw [hC] at hc
+    by_cases e : t ∈ txids ∧ overw l false t = true
+    · rw [if_pos e] at hc; cases hc
+      exact ⟨_, hnew⟩
+    · rw [if_neg e] at hc
+      obtain ⟨ch, sc⟩ := CS t c hc
+      exact ⟨ch, by rw [hB _ (A.ne_of_stored sc)]; exact sc⟩
 
 /-- the side-attachment outcome of `confirm` preserves the invariant -/
 theorem confirm_side_inv {l l4 : L} {id pre : Nat} {pb : Hdr} {txs : List (Nat × Bool)} (I : LedgerInv l)
     (hid : lookup l.B id = none) (hp : lookup l.B pre = some pb) (hle : ¬ pb.height + 1 > l.trunkHeight)
     (hc : confirmTxs l id false l.trunkHeight txs 0 (withNew l id pre (pb.height + 1) false (txs.map (·.1))) = some l4)
     (hfresh : ∀ a ha, Anc l a pre → lookup l.B a = some ha → ∀ t, t ∈ txs.map (·.1) → t ∉ ha.txs)
-    (hidC : ∀ t, lookup l.C t = some id → t ∈ txs.map (·.1)) : LedgerInv l4 := by
+    (hidC : ∀ t, lookup l.C t = some id → t ∈ txs.map (·.1)) : LedgerInv l4 ∧ (CStored l → CStored l4) := by
   obtain ⟨fB, fZH, fZI, ftip, fth, froot⟩ := cTxs_frame _ _ _ _ _ _ _ _ hc
   obtain ⟨wZH, wZI, wC, wroot, wtip, wth⟩ := withNew_rest l id pre (pb.height + 1) false (txs.map (·.1))
   have hB : ∀ x, lookup l4.B x = if id = x then some ⟨some pre, pb.height + 1, false, none, txs.map (·.1)⟩ else lookup l.B x := by
